@@ -2,6 +2,7 @@ INIT Init
 NEXT Next
 CONSTANT NR = 2
 CONSTANT NC = 2
+CONSTANT WithBool = TRUE
 INVARIANT NAPropagates
 INVARIANT SkipnaIgnores
 INVARIANT TwoStageSound
